@@ -23,7 +23,7 @@ theorem C02_tie_decided_path :
     Gen.calls_qbft_ValidateDecided = ["IsDecidedMsg", "Validate", "BaseCommitValidation", "Validate", "HashDataRoot"] ∧
     Gen.calls_qbft_node_BaseCommitValidation = ["Validate", "VerifyByOperators"] ∧
     Gen.calls_qbft_UponDecided =
-      ["ValidateDecided", "InstanceForHeight", "NewInstance", "AddMsg", "addNewInstance", "IsDecided", "AddMsg",
+      ["ValidateDecided", "InstanceForHeight", "FindInstance", "addNewInstance", "NewInstance", "AddMsg", "addNewInstance", "IsDecided", "AddMsg",
        "LongestUniqueSignersForRoundAndRoot", "AddMsg", "FindInstance", "SaveInstance", "NewDecidedHandler"] ∧
     Gen.calls_qbft_SaveInstance = ["SaveHighestAndHistoricalInstance", "SaveInstance", "SaveHighestInstance"] ∧
     Gen.src_qbft_SignedMessageValidate = "617a0fc1d8b6d278" ∧ Gen.src_qbft_MessageValidate = "2cf46fcf3e43f0b4" := by decide
